@@ -52,9 +52,31 @@ Print Assumptions C15_handlers_covered.
 Theorem C15_handlers_total : forall name q sg,
   In (name, q, sg) methods_gen ->
   exists cs, In (name, q, cs) (specs all_on) /\
-    forall req o, wf_val req = true -> (q = true \/ req_present req = true) -> run o cs req <> Panic.
+    forall n req o, wf_val req = true -> (q = true \/ req_present req = true) -> run n o cs req <> Panic.
 Proof. exact generated_methods_total. Qed.
 Print Assumptions C15_handlers_total.
+
+(* ---- the shard index of MsgSubmitValidityProof: with every state-dependent branch passed, for any
+        stored length n and any indices (unbounded integers), the head answers exactly the indices
+        outside 0 <= j < n with an error and never indexes outside the slice; a comparison of
+        truncated values would not *)
+Theorem C15_proof_index_checked : forall n idx,
+  let req := VMsg true [Sacc; Sval; Sjunk; VList (map VNum idx); VList (map (fun _ => VBytes 128) idx)] in
+  run n [true; true; true] (spec_of all_on "da.Msg.SubmitValidityProof"%string) req =
+  if forallb (idx_ok n) idx then Ok tt else Err E_HEAD.
+Proof. exact proof_index_checked. Qed.
+Print Assumptions C15_proof_index_checked.
+
+Theorem C15_index_check_sound : forall n j, idx_ok n j = true -> 0 <= j < n.
+Proof. exact idx_ok_sound. Qed.
+Print Assumptions C15_index_check_sound.
+
+Theorem C15_index_check_width_matters :
+  idx_ok_u32 3 (2 ^ 32) = true /\ idx_ok 3 (2 ^ 32) = false /\
+  idx_ok_u32 3 (- 2 ^ 63) = true /\ idx_ok 3 (- 2 ^ 63) = false /\
+  idx_ok_u32 3 (2 ^ 40 + 1) = true /\ idx_ok 3 (2 ^ 40 + 1) = false.
+Proof. exact idx_ok_u32_unsound. Qed.
+Print Assumptions C15_index_check_width_matters.
 
 (* ---- the swap interface fee rate: an accepted rate never makes 1 - rate zero *)
 Theorem C15_fee_rate_no_division_by_zero : forall rate, swap_rate_ok true rate = true -> P - rate <> 0.
@@ -92,7 +114,7 @@ Proof. exact (ex_intro _ _ route_reuse_panics). Qed.
 Print Assumptions C15_pristine_route_refuted.
 
 Theorem C15_pristine_handlers_refuted :
-  exists req, run [] (spec_of all_off "tokenconverter.Msg.Convert") req = Panic.
+  exists req, run 3 [] (spec_of all_off "tokenconverter.Msg.Convert") req = Panic.
 Proof. exact (ex_intro _ _ nil_int_convert). Qed.
 Print Assumptions C15_pristine_handlers_refuted.
 
@@ -118,7 +140,7 @@ Example C15_nonvacuous_head :
   let req := VMsg true [Sacc; Sempty; VRoute (Some good_route); VInt (Some 100); VInt (Some 1)] in
   wf_val req = true /\ req_present req = true /\
   In ("swap.Msg.SwapExactAmountIn"%string, false, spec_of all_on "swap.Msg.SwapExactAmountIn") (specs all_on) /\
-  run [] (spec_of all_on "swap.Msg.SwapExactAmountIn") req = Ok tt.
+  run 0 [] (spec_of all_on "swap.Msg.SwapExactAmountIn") req = Ok tt.
 Proof.
   split; [reflexivity|]. split; [reflexivity|]. split; [|vm_compute; reflexivity].
   apply find_spec_in. vm_compute. reflexivity.
